@@ -938,6 +938,10 @@ func TestVerifC20(t *testing.T) {
 				})
 				cl.Unlock()
 			}
+			if p.m%2 == 0 { // the connection has been up (and idle) for longer than any timeout of its dial by then
+				time.Sleep(2 * time.Minute)
+				synctest.Wait()
+			}
 			last := regs[p.nreg-1]
 			g, _ := hrpc.NewGet(context.Background(), []byte("t"), append(append([]byte{}, last.Start...), 'z'))
 			c.Get(g)
